@@ -17,23 +17,39 @@ HARNESS = 'h_c20'
 # second translation unit of the harness: its own unnamed-namespace types Setting / Triple / Record, spelled like the first unit's
 HARNESS_EXTRA = ('h_c20_b.h', 'h_c20_b.cpp')
 MODEL_MODULE = 'V.C20.Model'
-NTY = 24
-INSTR = tuple(range(0, 6)) + (11, 12, 13)
+NTY = 26
+INSTR = tuple(range(0, 6)) + (11, 12, 13, 24, 25)
 # sizeof of the harness's payload types (static_asserts in harness/h_c20.cpp; coq/C20/Model.v size_of): 11..15 lie between one and two words
 SIZE_OF = {0: 1, 1: 4, 2: 8, 3: 16, 4: 40, 5: 32, 6: 1, 7: 4, 8: 8, 9: 32, 10: 24, 11: 9, 12: 12, 13: 15, 14: 12, 15: 9, 16: 16, 17: 8,
-           18: 8, 19: 12, 20: 40, 21: 8, 22: 12, 23: 40}
+           18: 8, 19: 12, 20: 40, 21: 8, 22: 12, 23: 40, 24: 16, 25: 24}
 WORD = 8
 ODD_TYPES = (11, 12, 13, 14, 15)          # one word < sizeof < two words
 INPLACE_TYPES = (0, 1, 2, 6, 7, 8, 17, 18, 21)
-HEAP_TYPES = (3, 4, 5, 9, 10, 11, 12, 13, 14, 15, 16, 19, 20, 22, 23)
+HEAP_TYPES = (3, 4, 5, 9, 10, 11, 12, 13, 14, 15, 16, 19, 20, 22, 23, 24, 25)
 # 18..20 = Setting (8, in place) / Triple (12) / Record (40, non-trivial) of the harness's first translation unit (unnamed namespace),
 # 21..23 = the types of the SAME SPELLING in the second unit's unnamed namespace: distinct types, equal std::type_info::name() strings.
 # For the property they are just six different types: typed access with any type other than the stored one is a type error.
 TWIN = {18: 21, 19: 22, 20: 23, 21: 18, 22: 19, 23: 20}
 TWIN_TYPES = tuple(sorted(TWIN))
+# 24 = PBase (class with a virtual destructor, 16 bytes), 25 = PDerived : PBase (24 bytes): a polymorphic pair, instrumented.
+# Pseudo-tag 26 (op `new`, and the type of a map name) = `PBase* p = new PDerived(v)`: the client owns the object through a PBase*, so whoever
+# adopts it (assimilate, ValueMap::add<PBase>, a NotifiedValue<PBase> whose creator returns a new PDerived) adopts it AS PBase: the holder holds
+# "exactly the type last stored" = PBase, typed access with PBase yields the value, PDerived (never stored) is a type error, copies are PBase.
+P_BASE, P_DERIVED, ADOPT_DERIVED = 24, 25, 26
+KIN = {P_BASE: P_DERIVED, P_DERIVED: P_BASE}
+# a type that is easily confused with the stored one: the namesake of the other translation unit / the other class of the polymorphic pair
+NEAR = dict(TWIN)
+NEAR.update(KIN)
+
+
+def static_ty(ty):
+    """the type an object created under (pseudo-)tag ty is owned, adopted and stored as"""
+    return P_BASE if ty == ADOPT_DERIVED else ty
+
 # integrity codes of the harness (last integer of every state dump)
 ERR_SIG = {1: 'once:object-used-or-destroyed-after-destruction', 3: 'typed:stored-value-bytes-changed',
-           4: 'typed:access-with-another-type-accepted', 5: 'typed:checked-access-forms-disagree'}
+           4: 'typed:access-with-another-type-accepted', 5: 'typed:checked-access-forms-disagree',
+           6: 'once:derived-part-of-object-not-destroyed'}
 NPROC = 6
 VARIANTS = {('p%d' % i): {} for i in range(NPROC)}   # same binary, several processes (LeakSanitizer checks are slow)
 # leaks are judged per case through __lsan_do_recoverable_leak_check (last integer of the observation), not at process exit
@@ -44,7 +60,7 @@ RULE = ('cases = operation histories; part A over H<=4 holders, one ValueMap wit
         'h = value_cast<T>(h), h = value_cast<Record>(h).member, h = value_cast<vector<int>>(h)[0]), assign holder (incl. self), swap (incl. in-place<->heap, self), clear, '
         'client new/delete, assimilate, surrender (+reuse), write through value_cast, value_cast to every type, ValueMap::add '
         '(new / other pointer / the pointer already held), ValueMap::clear, operator[], NotifiedValue::parse (accepting / rejecting parser, first and '
-        'repeated), over 24 payload types (sizeof 1,4,8 in place; 16, string-like, vector-like on the heap; bool,int,const void*,std::string,std::vector<int>; '
+        'repeated), over 26 payload types (sizeof 1,4,8 in place; 16, string-like, vector-like on the heap; bool,int,const void*,std::string,std::vector<int>; '
         'sizes BETWEEN one and two words: instrumented 9, 12, 15 bytes, a plain struct of three ints (12) and of nine chars (9), plain controls of 16 and 8 bytes - every byte of these '
         'values is significant and checked at every read, every holder is an exactly-sized heap block so that ASan sees a write / read past its single word; '
         'fixed odd-size histories + stream A-random-odd-size + all type pairs; '
@@ -56,6 +72,11 @@ RULE = ('cases = operation histories; part A over H<=4 holders, one ValueMap wit
         '(an accepted access = integrity 4 = typed:access-with-another-type-accepted, the object is never read through the wrong type; contradicting forms = typed:checked-access-forms-disagree); '
         '24 fixed same-name histories (value arriving by typed construction / assignment, copy, holder assignment, swap, adoption, surrender + re-adoption, ValueMap::add, NotifiedValue::parse, copy out of the map; '
         'typed assignment over the namesake with the same value) + stream A-random-same-name-types (4 %) + 35 % of the typed reads of the other streams aimed at the namesake when there is one); '
+        'POLYMORPHIC PAIR: tags 24 = PBase (class with a virtual destructor, 16 bytes), 25 = PDerived : PBase (24 bytes), instrumented (ids, counted construction / destruction, derived part recorded separately: '
+        'a base destructor on an object whose derived part is alive = integrity 6 = once:derived-part-of-object-not-destroyed), every op works on them; pseudo-tag 26 (op new, type of a map name) = a PDerived object owned '
+        'through a PBase*: assimilate / ValueMap::add<PBase> / a NotifiedValue<PBase> whose creator returns a new PDerived adopt it AS PBase - the holder must report PBase (the type last stored), typed access with PBase must '
+        'yield the value, PDerived (never stored) must be refused, copies (sliced PBase objects with fresh ids) must agree with their source, the object must be destroyed completely and once; each holder / map entry holding 24 or 25 is '
+        'probed through the other class after EVERY operation; 10 fixed poly-fixed-* histories + stream A-random-polymorphic-adopted (4 %) + 8 % of the client objects of the other A streams; '
         'part B over S<=4 SharedOptPtr variables and C<=6 containers (OptionGroup, ParsedValues, OptionContext); 7 of 8 additions to a ParsedValues container take the handle from a REAL '
         'parse (parseCommandArray / parseCommandString over a context container of the case or a temporary context, result object kept) surrounded by command lines that must leave no '
         'handle behind: --no-<name> for negatable and non-negatable options, unknown names, prefixes, strict and with unregistered options allowed (stream B-parse-holder + fixed histories). '
@@ -140,7 +161,7 @@ def decode(c):
         if not (0 <= h <= 8 and 0 <= m <= 8):
             return None
         r = c[3:]
-        tys = [t % NTY for t in r[:m]]
+        tys = [t % (NTY + 1) for t in r[:m]]     # 26: NotifiedValue<PBase> whose creator returns a new PDerived
         tys += [0] * (m - len(tys))
         return ('A', h, m, tys, decode_ops(r[m:], ARITY_A))
     if c[0] == 1:
@@ -237,8 +258,8 @@ class RefA:
                 self.h[o[1]] = None
         elif k == 7:
             _, ty, v = o
-            if 0 <= ty < NTY:
-                self.cl.append(self.mkv(ty, v))
+            if 0 <= ty < NTY or ty == ADOPT_DERIVED:
+                self.cl.append(self.mkv(static_ty(ty), v))      # 26: a PDerived object owned (and later adopted) as PBase
         elif k == 8:
             if 0 <= o[1] < len(self.cl):
                 del self.cl[o[1]]
@@ -263,7 +284,7 @@ class RefA:
             if self.okh(i):
                 x = self.h[i]
                 res = [1, x[1]] if (x is not None and x[0] == ty) else [0, 0]
-                nt = x is not None and TWIN.get(x[0]) == ty      # read through the other translation unit's type of the same name
+                nt = x is not None and NEAR.get(x[0]) == ty      # read through the other translation unit's type of the same name / the other class of the polymorphic pair
         elif k == 13:
             _, n, kk = o
             if self.okm(n) and 0 <= kk < len(self.cl):
@@ -285,7 +306,7 @@ class RefA:
                 if self.pres[n]:
                     x = self.m[n]
                     res = [1, 1, x[1]] if (x is not None and x[0] == ty) else [1, 0, 0]
-                    nt = x is not None and TWIN.get(x[0]) == ty
+                    nt = x is not None and NEAR.get(x[0]) == ty
                 else:
                     res = [0, 0, 0]
         elif k == 17:
@@ -298,7 +319,7 @@ class RefA:
                     if self.nvb[n]:
                         self.m[n][1] = norm(self.m[n][0], v)      # same object, new value, no re-adoption
                     else:
-                        self.m[n] = self.mkv(self.tys[n], v)
+                        self.m[n] = self.mkv(static_ty(self.tys[n]), v)
                         self.pres[n] = True
                         self.nvb[n] = True
                     nt = True
@@ -617,7 +638,8 @@ def alias_op(ref, rnd, ne):
 def gen_a(rnd, flavour):
     H = rnd.choice([1, 2, 2, 3, 4])
     M = rnd.choice([0, 1, 2, 3]) if flavour != 'nomap' else 0
-    tys = [rnd.choice(TWIN_TYPES) if flavour == 'twin' and rnd.random() < 0.7 else rnd.randrange(NTY) for _ in range(M)]
+    tys = [rnd.choice(TWIN_TYPES) if flavour == 'twin' and rnd.random() < 0.7 else
+           rnd.choice((ADOPT_DERIVED, ADOPT_DERIVED, P_BASE, P_DERIVED)) if flavour == 'poly' and rnd.random() < 0.7 else rnd.randrange(NTY + 1) for _ in range(M)]
     ref = RefA(H, M, tys)
     nops = rnd.randint(3, 30)
     ops = []
@@ -631,11 +653,17 @@ def gen_a(rnd, flavour):
     elif flavour == 'twin':
         # the two translation units' types of the same spelling against each other (and a few ordinary types)
         pick_ty = lambda: rnd.choice(TWIN_TYPES + TWIN_TYPES + (7, 9, 2, 12))
+    elif flavour == 'poly':
+        # the polymorphic pair (stored by value) against a few ordinary types; `new` mostly creates a PDerived owned through a PBase* (26)
+        pick_ty = lambda: rnd.choice((P_BASE, P_DERIVED, P_BASE, P_DERIVED, 7, 9, 2, 12))
     elif flavour == 'alias':
         # every representation; the types with a part that is itself a payload type (PS, PV, vector<int>) more often
         pick_ty = lambda: rnd.choice([0, 1, 2, 3, 4, 4, 5, 5, 6, 7, 7, 8, 9, 9, 10, 10, 10, 11, 12, 13, 14, 15, 16, 17])
     else:
         pick_ty = lambda: rnd.randrange(NTY)
+    # type of a client object: sometimes (flavour poly: mostly) a PDerived object owned through a PBase* - whoever adopts it adopts a PBase
+    new_ty = lambda: ADOPT_DERIVED if rnd.random() < (0.55 if flavour == 'poly' else 0.08) else pick_ty()
+    near_p = 0.6 if flavour in ('twin', 'poly') else 0.35
     for _ in range(nops):
         r = rnd.random()
         ne = [i for i in range(H) if ref.h[i] is not None]
@@ -674,23 +702,23 @@ def gen_a(rnd, flavour):
         elif r < 0.42:
             o = (6, rnd.choice(ne) if ne and rnd.random() < 0.8 else hi())
         elif r < 0.52:
-            o = (7, pick_ty(), rnd.randrange(1000))
+            o = (7, new_ty(), rnd.randrange(1000))
         elif r < 0.56:
             o = (8, rnd.randrange(len(ref.cl)) if ref.cl else 0)
         elif r < 0.66:
             if ref.cl:
                 o = (9, hi(), rnd.randrange(len(ref.cl)))
             else:
-                o = (7, pick_ty(), rnd.randrange(1000))
+                o = (7, new_ty(), rnd.randrange(1000))
         elif r < 0.73:
             o = (10, rnd.choice(ne) if ne and rnd.random() < 0.85 else hi())
         elif r < 0.79:
             o = (11, rnd.choice(ne) if ne and rnd.random() < 0.85 else hi(), rnd.randrange(1000))
         elif r < 0.86 or M == 0:
-            i = rnd.choice(ne) if ne and flavour == 'twin' else hi()
+            i = rnd.choice(ne) if ne and flavour in ('twin', 'poly') else hi()
             cur = ref.h[i][0] if ref.h[i] is not None else None
-            if cur in TWIN and rnd.random() < (0.6 if flavour == 'twin' else 0.35):
-                ty = TWIN[cur]           # the other unit's type of the same name: must be refused like any other type
+            if cur in NEAR and rnd.random() < near_p:
+                ty = NEAR[cur]           # the other unit's type of the same name / the other class of the polymorphic pair: must be refused like any other type
             else:
                 ty = cur if cur is not None and rnd.random() < 0.5 else rnd.randrange(-1, NTY)
             o = (12, i, ty)
@@ -701,15 +729,15 @@ def gen_a(rnd, flavour):
                 if ref.cl:
                     o = (13, n, rnd.randrange(len(ref.cl)))
                 else:
-                    o = (7, pick_ty(), rnd.randrange(1000))
+                    o = (7, new_ty(), rnd.randrange(1000))
             elif q < 0.45:
                 o = (14, n)
             elif q < 0.5:
                 o = (15,)
             elif q < 0.65:
                 cur = ref.m[n][0] if ref.m[n] is not None else None
-                if cur in TWIN and rnd.random() < 0.4:
-                    ty = TWIN[cur]
+                if cur in NEAR and rnd.random() < 0.4:
+                    ty = NEAR[cur]
                 else:
                     ty = cur if cur is not None and rnd.random() < 0.6 else rnd.randrange(NTY)
                 o = (16, n, ty)
@@ -729,11 +757,11 @@ def gen_a(rnd, flavour):
 
 def gen_a_wild(rnd):
     H, M = rnd.randint(0, 3), rnd.randint(0, 3)
-    tys = [rnd.randint(-3, 27) for _ in range(M)]
+    tys = [rnd.randint(-3, 30) for _ in range(M)]
     ops = []
     for _ in range(rnd.randint(1, 25)):
         k = rnd.randint(1, 17)
-        ops.append(tuple([k] + [rnd.choice([-1, 0, 0, 1, 1, 2, 3, 5, 11, 12, 14, 17, 18, 20, 21, 23, 24, 999, 1000, 1001]) for _ in range(ARITY_A[k])]))
+        ops.append(tuple([k] + [rnd.choice([-1, 0, 0, 1, 1, 2, 3, 5, 11, 12, 14, 17, 18, 20, 21, 23, 24, 25, 26, 27, 999, 1000, 1001]) for _ in range(ARITY_A[k])]))
     c = [0, H, M] + tys
     for o in ops:
         c += list(o)
@@ -906,11 +934,34 @@ def twin_fixed():
     return out
 
 
+def poly_fixed():
+    """the polymorphic pair PBase (24) / PDerived : PBase (25) and the pseudo-tag 26 = a PDerived object owned through a PBase*: such an object
+    reaches a holder in every adopting way the alphabet has (assimilate, ValueMap::add, NotifiedValue<PBase> with a creator that returns a new
+    PDerived) and the holder is then copied / assigned / swapped / written / surrendered / re-adopted / cleared; after each step it is read
+    through PBase (must yield the value: PBase is the type stored) and through PDerived (never stored: must be refused)"""
+    B, D, A = P_BASE, P_DERIVED, ADOPT_DERIVED
+    both = lambda i: [12, i, B, 12, i, D]
+    mboth = lambda n: [16, n, B, 16, n, D]
+    out = []
+    for v in (5, 412):
+        out.append(([0, 3, 0, 7, A, v, 9, 0, 0] + both(0) + [2, 1, 0] + both(1) + [4, 2, 0] + both(2) + [11, 0, v + 1] + both(0) + [4, 0, 0] + both(0)
+                    + [5, 0, 1] + both(0) + both(1) + [3, 1, B, v + 1] + both(1) + [10, 0, 9, 0, 0] + both(0) + [6, 1, 6, 0, 6, 2], 'poly-fixed-adopt-copy-swap'))
+        out.append(([0, 2, 0, 7, A, v, 9, 0, 0, 10, 0] + both(0) + [9, 1, 0] + both(1) + [2, 0, 1] + both(0) + [10, 1, 8, 0] + both(0), 'poly-fixed-surrender-readopt'))
+        out.append(([0, 2, 2, A, B, 17, 0, v, 1] + mboth(0) + [17, 0, v + 1, 1] + mboth(0) + [4, 0, 2] + both(0) + [7, A, v + 2, 13, 1, 0] + mboth(1) + [14, 1] + mboth(1)
+                    + [7, A, v + 3, 13, 0, 0] + mboth(0) + [2, 1, 3] + both(1) + [17, 0, v + 4, 0, 17, 0, v + 4, 1] + mboth(0) + [17, 1, v + 5, 1] + mboth(1) + [15], 'poly-fixed-map'))
+        # genuine PBase, genuine PDerived (adopted / stored by value AS PDerived: type 25) and the PDerived adopted as PBase side by side
+        out.append(([0, 3, 0, 7, B, v, 9, 0, 0, 7, D, v, 9, 1, 0, 7, A, v, 9, 2, 0] + both(0) + both(1) + both(2) + [5, 1, 2] + both(1) + both(2) + [4, 0, 2] + both(0)
+                    + [1, 0, D, v + 1] + both(0) + [4, 2, 0] + both(2) + [2, 1, 1] + both(1), 'poly-fixed-genuine-vs-adopted'))
+        # typed assignment over the adopted object: T = PDerived with the same value (independent argument), T = PBase with the same value (h = value_cast<PBase>(h): sliced copy of the held object)
+        out.append(([0, 1, 0, 7, A, v, 9, 0, 0, 3, 0, D, v] + both(0) + [7, A, v, 9, 0, 0, 3, 0, B, v] + both(0) + [7, A, v + 1, 9, 0, 0] + both(0), 'poly-fixed-assign-over'))
+    return out
+
+
 def gen(seed, tier):
     rnd = random.Random(seed * 7919 + 20)
     # thorough is 40k, not the 300k of DESIGN.md: every operation dumps the whole state (~1.5k integers per history), which the driver keeps in memory
     total = {'quick': 5000, 'thorough': 40000, 'search': 8000}.get(tier, 5000)
-    out = [(c, {'kind': k}) for c, k in FIXED + alias_fixed() + odd_fixed() + twin_fixed() + gen_magnitude()]
+    out = [(c, {'kind': k}) for c, k in FIXED + alias_fixed() + odd_fixed() + twin_fixed() + poly_fixed() + gen_magnitude()]
     # one history per ordered pair of types: store a, store b, swap, copy, self-assign, cast both ways, clear
     for a in range(NTY):
         for b in range(NTY):
@@ -918,7 +969,10 @@ def gen(seed, tier):
                         {'kind': 'pair-swap-copy'}))
     while len(out) < total:
         r = rnd.random()
-        if r < 0.26:
+        if r < 0.04:
+            # polymorphic pair: derived objects adopted through a pointer to their base, typed reads through base and derived
+            out.append((gen_a(rnd, 'poly'), {'kind': 'A-random-polymorphic-adopted'}))
+        elif r < 0.26:
             out.append((gen_a(rnd, 'any'), {'kind': 'A-random-any'}))
         elif r < 0.43:
             out.append((gen_a(rnd, 'instr'), {'kind': 'A-random-instrumented'}))
@@ -998,9 +1052,11 @@ def shrink(case, fails):
 
 LEVEL_TEXT = ('Machine-checked proofs (Coq) about an executable ownership model of ValueStore/ValueMap::add/NotifiedValue::doParse and of '
               'IntrusiveSharedPtr: for every operation history over any number of holders the model refines plain value semantics '
-              '(type and value of each holder, value_cast results; spelled out for every one of the 24 type tags: typed store then typed read / copy / swap partner return the stored value, every other type is refused - '
+              '(type and value of each holder, value_cast results; spelled out for every one of the 26 type tags: typed store then typed read / copy / swap partner return the stored value, every other type is refused - '
               'in particular the type of the same NAME that another translation unit declares (c20_typed_same_name_other_unit: the model\'s type test is equality of types, and the translator anchors that both checked '
-              'forms of value_cast compare the two std::type_info objects with == and nothing else), '
+              'forms of value_cast compare the two std::type_info objects with == and nothing else), and an object the client created under tag T and a holder then adopted is held as T, every other type refused, '
+              'also in copies and swap partners (c20_typed_adopted_as_static_type: the type of a holder is the type the value was stored / adopted AS - a PDerived object adopted through a pointer to its polymorphic base PBase '
+              'is held as PBase; the translator anchors that type() passes no object to the vtable and VTable<T>::typeinfo answers &typeid(T)), '
               'the in-place rule generated from the header selects the in-place table only for objects that fit into the holder\'s word (all sizes), '
               'copies are distinct objects that later operations on the other side do not touch, '
               'the error flag (double destroy / use after destroy) is never raised, live objects = owned objects after every operation and = the client\'s '
